@@ -318,8 +318,10 @@ CHMOD_FILES = ["'/etc/passwd'", "''", "path", "f()", "None", "5", "0", "-5", "1.
 # first arguments whose str() embeds container / AST-object reprs: only used with modes that do not fire,
 # or where the crash comes first
 CHMOD_CONTAINER_FILES = ["('t',)", "['l']", "{'s'}", "{'d': 1}", "[]", "()", "{**a}", "[x, 1]", "(1, 2)",
-                         "{'k': {[1]}}"]
-CHMOD_CRASH_FILES = ["{[1]}", "{{1}}", "{(1, [2])}", "[{[1]}]", "({[1]},)", "{{}}", "{1, {}}"]
+                         "{'k': {[1]}}", "[{[1]}]", "({[1]},)", "{1, {}}", "{1, [2]}", "{'a', ('b', [1])}", "{*a}"]
+# set displays with unhashable elements (skipped by _get_literal_value) and empty containers: str() is
+# 'set()', '[]', '()', '{}' -- rendered exactly by the model
+CHMOD_CRASH_FILES = ["{[1]}", "{{1}}", "{(1, [2])}", "{{}}", "{[], {}}", "[]", "()", "{}"]
 
 
 def P(src, include=None, config=None):
